@@ -389,7 +389,7 @@ pub fn run(ctx: &Ctx) -> Outcome {
     }
     for len in ctx.tier.pick(vec![40000usize], vec![40000usize, 16385, 49152]) {
         let s = Tiling2 { len };
-        let depth = ctx.tier.pick(9, 12);
+        let depth = ctx.tier.pick(9, 14);
         let st = explore::bfs(ctx, &s, depth, ctx.tier.pick(25, 10));
         per.push(json!({"scenario": Scenario::name(&s), "depth": depth, "states": st.states, "transitions": st.transitions, "depth_completed": st.depth_completed}));
         total.merge(&st);
